@@ -78,6 +78,10 @@ def cases(tier, seed):
                                                  [["a", "b"], ["my col", "b-c"], ["x(y)", "n"], ["1st", "_hid", "ok"], ["A", "a2", "c"]],
                                                  [[["v1", "v2", "v3"], ["w1", "w2", "w3"]], [["1", "2", "3"], ["x y", "z", "q"], ["e", "f", "g"]]]):
         yield {"kind": "csvread", "t": "csvread", "delim": delim, "header": header, "rows": [r[: len(header)] for r in rows]}
+    for delim in (",", ";"):
+        for cell in ("two\r\nlines", "bare\rreturn", "unix\nbreak", "mixed\r\n\n\rend", " spaces "):  # (quotes and delimiters inside cells make the dialect sniffing ambiguous: not "safe" content)
+            yield {"kind": "csvread", "t": "csvread-quoted", "delim": delim, "header": ["a", "b", "c"], "quoted": True,
+                   "rows": [["first", cell, "last"], ["x", "plain", "z"], ["p", cell + cell, "q"]]}
     # the headerless door: column names from the caller, every row of the file is data - also a first row that "looks like" a header
     for delim, door in itertools.product([",", ";"], ["uri", "kw"]):
         for rows in ([["unknown", "n/a", "-"], ["web01", "20", "up"], ["web02", "30", "up"], ["web03", "40", "down"]],
@@ -319,10 +323,16 @@ def csvread_check(case, viol):
     p = os.path.join(d, "c20r-%d-%d.csv" % (os.getpid(), _n[0]))
     try:
         with open(p, "w", newline="") as f:
-            if not case.get("headerless"):
-                f.write(case["delim"].join(case["header"]) + "\r\n")
-            for row in case["rows"]:
-                f.write(case["delim"].join(row) + "\r\n")
+            if case.get("quoted"):
+                # cells with line breaks: the file is written by Python's csv module (quoted), the reader must hand every cell back as it is
+                wr = csv.writer(f, delimiter=case["delim"], lineterminator="\r\n")
+                wr.writerow(case["header"])
+                wr.writerows(case["rows"])
+            else:
+                if not case.get("headerless"):
+                    f.write(case["delim"].join(case["header"]) + "\r\n")
+                for row in case["rows"]:
+                    f.write(case["delim"].join(row) + "\r\n")
         try:
             if case.get("headerless") == "uri":
                 # no header row in the file: the column names are given by the caller
